@@ -211,6 +211,10 @@ func nqCase(o *hc.Out, text string) {
 		o.Count("nq.outside_fragment")
 		return
 	}
+	if quotedCallName(ws) {
+		o.Count("nq.outside_fragment:quoted_function_name")
+		return
+	}
 	o.Case("c18.nq "+strings.Join(ws, " "), impl)
 	if parts := strings.SplitN(impl, " | ", 2); len(parts) == 2 {
 		printedLiteralLaw(o, text, ws, strings.Fields(parts[1]))
